@@ -12,6 +12,7 @@ import TantivyModel.Proofs.Pipeline
 import TantivyModel.Proofs.JsonPositions
 import TantivyModel.Proofs.RecorderRemap
 import TantivyModel.Proofs.BlockCursorDrain
+import TantivyModel.Proofs.PositionReader
 /-!
 # C07 — The inverted index records exactly the terms, documents, frequencies, positions
 
@@ -348,6 +349,29 @@ theorem C07_extract_bits_field (pre : List (Nat × Nat)) (v w : Nat) (post : Lis
       (TermInfoStore.totalBits pre) w = v :=
   TermInfoStore.extractBits_field pre v w post hall hw rest hrest
 
+/-- **The stateful `PositionReader`.**  Open a reader on the bytes `PositionSerializer` writes for
+a term's position stream `D` and issue *any* sequence of `read(offset, len)` calls on it — forwards,
+backwards (reset), inside the loaded block, across many blocks, into the VInt tail — each within
+the stream: every call returns exactly `D[offset .. offset+len)`.  The model keeps the reader's
+state (bit widths and bytes from the anchor block, the decoded block and its `block_offset`,
+skipping whole blocks by the sum of their widths). -/
+theorem C07_position_reader (D : List Nat) (rs : List (Nat × Nat))
+    (hr : ∀ r ∈ rs, r.1 + r.2 ≤ D.length) :
+    ∃ s, Positions.Reader.open cfg (Positions.encode cfg D) = some s ∧
+      Positions.Reader.reads cfg s rs = rs.map (fun r => (D.drop r.1).take r.2) := by
+  obtain ⟨s, h1, hc, hl⟩ := Positions.open_encode cfg (by decide) D
+  exact ⟨s, h1, Positions.reads_spec cfg (by decide) (by decide) (by decide) C07_bp4x_good D rs s 0 hc hl hr⟩
+
+/-- parametric form: any block size divisible by 8, any bit packer meeting the contract, and the
+reader's consistency invariant is re-established by every read -/
+theorem C07_position_reader_step (c : Cfg) (h8 : 8 ∣ c.B) (hB : 0 < c.B) (hS : 2 ≤ c.S)
+    (hP : GoodPacker c.B c.P) (D : List Nat) (s : Positions.Reader) (a : Nat)
+    (hc : Positions.Core c D s a) (hl : Positions.Loaded c D s a) (offset len : Nat)
+    (hrange : offset + len ≤ D.length) :
+    (s.read c offset len).1 = (D.drop offset).take len ∧
+    ∃ a', Positions.Core c D (s.read c offset len).2 a' ∧ Positions.Loaded c D (s.read c offset len).2 a' :=
+  Positions.read_spec c h8 hB hS hP D s a hc hl offset len hrange
+
 /-! ### field norms -/
 
 theorem fieldnorm_roundtrip (i : Nat) (hi : i < 256) :
@@ -451,6 +475,7 @@ example : (BlockPostings.open cfg .basic .basic 3 [129, 132, 132]).skip.skipInfo
     (BlockPostings.open cfg .basic .basic 3 [129, 132, 132]).freqOpt = freqOptOf .basic .basic ∧
     ValidList [1, 5, 9] [1, 1, 1] := by
   refine ⟨by decide, by decide, ⟨by decide, by decide, by decide, by decide⟩⟩
+example : ∀ r ∈ [(2, 2), (0, 1), (1, 3)], r.1 + r.2 ≤ ([5, 0, 7, 9] : List Nat).length := by decide
 example : 0 < TermInfoStore.BLOCK_LEN ∧ TermInfoStore.BLOCK_LEN = 256 := by decide
 theorem C07_terminfo_example_good :
     TermInfoStore.GoodStore 2 [⟨512, 51, 57, 110, 134⟩, ⟨3, 57, 60, 134, 134⟩, ⟨9, 70, 100, 140, 150⟩] := by
